@@ -93,79 +93,80 @@ func (w *SimStringWriter) WriteString(s string) (int, error) { return w.Write([]
 // ---------------------------------------------------------------------------
 // SimItems: cell contents with script-controlled text and declared sizes.
 
+// simBase has no exported fields on purpose: encoding/json must see "{}".
 type simBase struct {
-	ID   int
-	Text string
-	Y    Yielder
-	Log  *EventLog
+	id   int
+	text string
+	y    Yielder
+	log  *EventLog
 }
 
 func (b *simBase) call(m string) {
-	if b.Log != nil {
-		b.Log.Add("item#" + strconv.Itoa(b.ID) + "." + m)
+	if b.log != nil {
+		b.log.Add("item#" + strconv.Itoa(b.id) + "." + m)
 	}
-	yield(b.Y, "item."+m)
+	yield(b.y, "item."+m)
 }
 
 type ItemStringer struct{ simBase }
 
-func (i *ItemStringer) String() string { i.call("String"); return i.Text }
+func (i *ItemStringer) String() string { i.call("String"); return i.text }
 
 type ItemGoStringer struct{ simBase }
 
-func (i *ItemGoStringer) GoString() string { i.call("GoString"); return i.Text }
+func (i *ItemGoStringer) GoString() string { i.call("GoString"); return i.text }
 
 type ItemError struct{ simBase }
 
-func (i *ItemError) Error() string { i.call("Error"); return i.Text }
+func (i *ItemError) Error() string { i.call("Error"); return i.text }
 
 type ItemSized struct {
 	simBase
-	H, W int
+	h, w int
 }
 
-func (i *ItemSized) String() string         { i.call("String"); return i.Text }
-func (i *ItemSized) Height() int            { i.call("Height"); return i.H }
-func (i *ItemSized) TerminalCellWidth() int { i.call("TerminalCellWidth"); return i.W }
+func (i *ItemSized) String() string         { i.call("String"); return i.text }
+func (i *ItemSized) Height() int            { i.call("Height"); return i.h }
+func (i *ItemSized) TerminalCellWidth() int { i.call("TerminalCellWidth"); return i.w }
 
 type ItemHeight struct {
 	simBase
-	H int
+	h int
 }
 
-func (i *ItemHeight) String() string { i.call("String"); return i.Text }
-func (i *ItemHeight) Height() int    { i.call("Height"); return i.H }
+func (i *ItemHeight) String() string { i.call("String"); return i.text }
+func (i *ItemHeight) Height() int    { i.call("Height"); return i.h }
 
 type ItemWidth struct {
 	simBase
-	W int
+	w int
 }
 
-func (i *ItemWidth) String() string         { i.call("String"); return i.Text }
-func (i *ItemWidth) TerminalCellWidth() int { i.call("TerminalCellWidth"); return i.W }
+func (i *ItemWidth) String() string         { i.call("String"); return i.text }
+func (i *ItemWidth) TerminalCellWidth() int { i.call("TerminalCellWidth"); return i.w }
 
 type ItemJSON struct {
 	simBase
-	Mode int
+	mode int
 }
 
-func (i *ItemJSON) String() string { i.call("String"); return i.Text }
+func (i *ItemJSON) String() string { i.call("String"); return i.text }
 func (i *ItemJSON) MarshalJSON() ([]byte, error) {
 	i.call("MarshalJSON")
-	switch i.Mode {
+	switch i.mode {
 	case 1:
-		return nil, fmt.Errorf("sim: item#%d refuses to marshal", i.ID)
+		return nil, fmt.Errorf("sim: item#%d refuses to marshal", i.id)
 	case 2:
 		return []byte("{}"), nil
 	case 3:
-		return []byte(strconv.Quote("j" + strconv.Itoa(i.ID))), nil
+		return []byte(strconv.Quote("j" + strconv.Itoa(i.id))), nil
 	}
-	return []byte(`{"id":` + strconv.Itoa(i.ID) + `}`), nil
+	return []byte(`{"id":` + strconv.Itoa(i.id) + `}`), nil
 }
 
 // MakeItem materialises a scripted Item.  id must be unique within the run.
 func MakeItem(it Item, id int, y Yielder, log *EventLog) interface{} {
-	b := simBase{ID: id, Text: it.S, Y: y, Log: log}
+	b := simBase{id: id, text: it.S, y: y, log: log}
 	switch it.K {
 	case "s":
 		return it.S
